@@ -247,6 +247,16 @@ def run_case(pid, p, rng, res, spec, tier):
                 res.count('solved_runs_pulling_forms')
             for f in pulled:
                 res.add('forms_pulled_by_reference', f.split(':')[0])
+        # numbered copies of one form requested by name, alone and next to the return
+        copies = sorted({k_.split('.')[0] for k_ in tv.stored if ':' in k_.split('.')[0] and k_.split('.')[0].split(':')[0] in INPUT_FORM_NAMES})
+        if len(copies) >= 2:
+            for request in (copies[:3], list(p.forms()) + copies[:2]):
+                o4, tv4, _ = traced(fresh(), forms=request)
+                res.evaluations += 1
+                res.count('closure_checks')
+                res.count('closure_checks_with_copies_requested')
+                for s, m in oracles.c04(o4, tv4):
+                    viol(res, pid, year, s, m, p, f'copies-requested:{len(request)}', spec)
         k = rng.randint(0, max(0, len(tv.prompts) - 1))
         o3, tv3, _ = traced(fresh(), refuse_from=k)
         res.evaluations += 1
